@@ -33,12 +33,38 @@ impl<'a> Tokenizer<'a> {
 impl Tokenizer<'_> {
     fn tokenize(mut self) -> Result<Vec<Token>, KikiErr> {
         for (c_index, c) in self.src.char_indices() {
+            #[cfg(feature = "verif")]
+            self.verif_record(c_index, Some(c));
             self.handle_char(c, ByteIndex(c_index))?;
         }
 
+        #[cfg(feature = "verif")]
+        self.verif_record(self.src.len(), None);
         self.push_pending_token_and_reset_state(None, ByteIndex(self.src.len()))?;
 
         Ok(self.out)
+    }
+
+    /// Records the tokenizer state *before* it consumes `c` at byte `index`
+    /// (`c == None`: before the final flush).
+    #[cfg(feature = "verif")]
+    fn verif_record(&self, index: usize, c: Option<char>) {
+        crate::verif::record(|| crate::verif::Event::LexStep {
+            index,
+            c,
+            state: match self.state {
+                State::Main => ("Main", 0, 0, 0),
+                State::Slash(a) => ("Slash", a.0, 0, 0),
+                State::SingleLineComment => ("Comment", 0, 0, 0),
+                State::Ident(a, b) => ("Ident", a.0, b.0, 0),
+                State::Dollar(a) => ("Dollar", a.0, 0, 0),
+                State::TerminalIdent(a, b) => ("TIdent", a.0, b.0, 0),
+                State::Colon(a) => ("Colon", a.0, 0, 0),
+                State::Pound(a) => ("Pound", a.0, 0, 0),
+                State::OuterAttribute(a, d, b) => ("Attr", a.0, b.0, d.0.get()),
+            },
+            out_len: self.out.len(),
+        });
     }
 
     fn handle_char(&mut self, current: char, current_index: ByteIndex) -> Result<(), KikiErr> {
